@@ -365,6 +365,52 @@ def coq_oview(c, view):
     return v, coq_pairs(view.get('TFLAG') or [])
 
 
+# ---- temperature / height_pressure: Coq-side contents (Model/TempHp.v) and view literals
+TH_FORMATS = ('temperature', 'height_pressure')
+
+
+def recs_per_step(c):
+    return {'temperature': c['nz'] + 1, 'height_pressure': 2 * c['nz']}.get(c['fmt'], c['nz'])
+
+
+def coq_temphp(c):
+    if c['fmt'] == 'temperature':
+        steps = '; '.join('(TStep %d %d %s %s)' % (L.f32_word(float(s['hhmm'])), s['date'], C.zlist(s['fields']['SURFTEMP'][0]),
+                                                   C.zll(s['fields']['AIRTEMP'])) for s in c['steps'])
+        return '{| t_nx := %d; t_ny := %d; t_nz := %d; t_steps := [%s] |}' % (c['nx'], c['ny'], c['nz'], steps)
+    steps = '; '.join('(HStep %d %d [%s])' % (L.f32_word(float(s['hhmm'])), s['date'],
+                                               '; '.join('(%s, %s)' % (C.zlist(h), C.zlist(p)) for h, p in zip(s['fields']['HGHT'], s['fields']['PRES'])))
+                      for s in c['steps'])
+    return '{| h_nx := %d; h_ny := %d; h_nz := %d; h_steps := [%s] |}' % (c['nx'], c['ny'], c['nz'], steps)
+
+
+def _flat3(arr):
+    return C.zll([[w for row in lay for w in row] for lay in arr])
+
+
+def coq_thview(c, view):
+    """Coq literals (tview / hview without stamps, tflag) of what a library reader presented"""
+    t = c['fmt'] == 'temperature'
+    if not view:
+        if t:
+            return '{| tv_nx := 0; tv_ny := 0; tv_nz := 0; tv_ntimes := 0; tv_stamps := []; tv_surf := []; tv_air := [] |}', '[]'
+        return '{| hv_nx := 0; hv_ny := 0; hv_nz := 0; hv_ntimes := 0; hv_stamps := []; hv_hght := []; hv_pres := [] |}', '[]'
+    dm = view['dims']
+    tf = coq_pairs(view.get('TFLAG') or [])
+    if t:
+        surf = view['data']['SURFTEMP']
+        # SURFTEMP is (TSTEP, ROW, COL) from the Memmap reader and (TSTEP, 1, ROW, COL) from the record reader
+        surf = [x[0] if (x and x[0] and isinstance(x[0][0], list)) else x for x in surf]
+        v = '{| tv_nx := %d; tv_ny := %d; tv_nz := %d; tv_ntimes := %d; tv_stamps := []; tv_surf := %s; tv_air := %s |}' % (
+            dm['COL'], dm['ROW'], dm['LAY'], dm['TSTEP'], C.zll([[w for row in x for w in row] for x in surf]),
+            '[' + '; '.join(_flat3(x) for x in view['data']['AIRTEMP']) + ']')
+    else:
+        v = '{| hv_nx := %d; hv_ny := %d; hv_nz := %d; hv_ntimes := %d; hv_stamps := []; hv_hght := %s; hv_pres := %s |}' % (
+            dm['COL'], dm['ROW'], dm['LAY'], dm['TSTEP'],
+            '[' + '; '.join(_flat3(x) for x in view['data']['HGHT']) + ']', '[' + '; '.join(_flat3(x) for x in view['data']['PRES']) + ']')
+    return v, tf
+
+
 # ----------------------------------------------------------------------------- land use (static file, old style: 11 categories)
 def gen_landuse(rng):
     nx, ny = rng.randint(1, 3), rng.randint(1, 3)
